@@ -1074,6 +1074,7 @@ fn map_names(ops: &[Op], f: &dyn Fn(&str) -> String) -> Vec<Op> {
         .map(|o| match o {
             Op::Sys(s) => Op::Sys(SysSpec { name: if s.name.is_empty() { String::new() } else { f(&s.name) }, deps: s.deps.iter().map(|d| f(d)).collect(), ..s.clone() }),
             Op::Batch(b) => Op::Batch(BatchSpec { name: if b.name.is_empty() { String::new() } else { f(&b.name) }, deps: b.deps.iter().map(|d| f(d)).collect(), inner: b.inner.clone(), ..b.clone() }),
+            Op::Static(st) => Op::Static(StaticSpec { name: if st.name.is_empty() { String::new() } else { f(&st.name) }, deps: st.deps.iter().map(|d| f(d)).collect(), ..st.clone() }),
             x => x.clone(),
         })
         .collect()
@@ -1159,6 +1160,23 @@ pub fn c19_check(ops: &[Op], l: &crate::hsys::Layout, nmaps: usize) -> (u64, Vec
                 }
                 Err(e) => vs.push(("transformed-plan-rejected".to_string(), format!("registered in alternation with a second builder ({}): {}", what, e))),
             }
+        }
+    }
+    // (x) the thread's history: the same calls on a freshly started thread (on which nothing has been built yet) give
+    //     the same plan as here, where thousands of other plans have been built before (statically typed plans only:
+    //     that is where per-thread / per-process memo tables of the library would sit)
+    if ops.iter().any(|o| matches!(o, Op::Static(_))) {
+        n += 1;
+        let ops2 = ops.to_vec();
+        let idm2 = idm.clone();
+        match std::thread::spawn(move || layout_of(&ops2, &idm2)).join() {
+            Ok(Ok(l2)) => {
+                if l2 != *l {
+                    vs.push(("plan-depends-on-what-was-built-before".to_string(), format!("built on a freshly started thread the layout is {}", l2.short())));
+                }
+            }
+            Ok(Err(e)) => vs.push(("transformed-plan-rejected".to_string(), format!("built on a freshly started thread: {}", e))),
+            Err(_) => vs.push(("transformed-plan-rejected".to_string(), "building on a freshly started thread panicked".to_string())),
         }
     }
     // (vii) the size of the default pool / the number of cores the building thread sees
@@ -1274,7 +1292,11 @@ pub fn c19_check(ops: &[Op], l: &crate::hsys::Layout, nmaps: usize) -> (u64, Vec
     fn has_ctrl_data(ops: &[Op]) -> bool {
         ops.iter().any(|o| matches!(o, Op::Batch(b) if b.ctrl != CtrlData::Unit || has_ctrl_data(&b.inner)))
     }
-    let fixed = has_ctrl_data(ops);
+    // (statically typed systems name A and C by their Rust types as well)
+    fn has_static(ops: &[Op]) -> bool {
+        ops.iter().any(|o| matches!(o, Op::Static(_)) || matches!(o, Op::Batch(b) if has_static(&b.inner)))
+    }
+    let fixed = has_ctrl_data(ops) || has_static(ops);
     // with A and C pinned there are only 24 relabellings: all of them, in both tiers
     let maps: Vec<Vec<u8>> = if fixed { resmaps(usize::MAX).into_iter().filter(|m| m[0] == 0 && m[2] == 2).collect() } else { resmaps(nmaps) };
     for m in maps.iter().skip(1) {
